@@ -26,4 +26,5 @@ nsig=$(grep -c "^  signature:" "$work/run.log")
 echo "MUTANT $(basename "$patch") on $prop/$tier: exit=$code signatures=$(grep '^  signature:' "$work/run.log" | sort -u | wc -l) violations_lines=$nsig"
 grep "^  signature:" "$work/run.log" | sort | uniq -c | head -6
 grep -E "SUMMARY|INCONCLUSIVE|HARNESS" "$work/run.log" | head -3
+case $code in 132|134|135|136|139) echo "  (process killed by signal $((code-128)): ./check reports this as VIOLATION ...|process|killed_by_signal|crash)"; grep -E "^CRASH-CASE|memory allocation|overflowed" "$work/run.log" | head -3;; esac
 exit 0
